@@ -90,7 +90,8 @@ type phase struct {
 }
 
 type scenario struct {
-	GoMaxProcs int           `json:"gomaxprocs"` // GOMAXPROCS of the daemon process, 0 = default (a CPU-limited container runs with 1 or 2)
+	LogLevel   string        `json:"log_level,omitempty"` // -log-level of the daemon ("" = its default, info)
+	GoMaxProcs int           `json:"gomaxprocs"`          // GOMAXPROCS of the daemon process, 0 = default (a CPU-limited container runs with 1 or 2)
 	Sessions   []sessionPlan `json:"sessions"`
 	Sshd       []sshdItem    `json:"sshd"`
 	Audit      []auditItem   `json:"audit"`
@@ -252,6 +253,9 @@ type protoItem struct {
 func genScenario(r *hutil.Rand) *scenario {
 	nSess := 1 + r.Intn(8)
 	sc := &scenario{GoMaxProcs: []int{0, 0, 0, 1, 2, 4}[r.Intn(6)]}
+	if r.Chance(1, 3) {
+		sc.LogLevel = "debug"
+	}
 	var seqs [][]*protoItem // per session: its items in the order they must be written
 	usedPID := map[int]bool{}
 	usedSes := map[int]bool{}
